@@ -416,6 +416,15 @@ func genC12Inert(r *rng, n int, w *bufio.Writer) {
 			}
 			lines = append(lines, l)
 		}
+		// R2: one list in three STARTS with a multi-byte sequence (UTF-8 byte order mark as written by Windows editors,
+		// a non-ASCII title, NBSP): on the unchanged tree the mark is part of the first line (a comment becomes a junk
+		// rule) in L and in L+N alike; a scanner that treats the start of the list specially must keep the offsets of
+		// all the rules behind it right, with and without lines inserted in front
+		markFirst := false
+		if t := r2FirstLine(r); r.chance(1, 3) && !strings.ContainsAny(t, "\n\r") {
+			lines = append([]string{t}, lines...)
+			markFirst = true
+		}
 		web, dns, hosts := eBatch(r, lines, 8)
 		// N2: LIVE rules for queried hosts, each directly behind a LONG inert line (comment or rejected line of 200 bytes …
 		// 200 KB: above 255 / 300 / 1024 / the 4 KiB read buffer / 64 KiB) -- a scanner that mistreats the long line (takes
@@ -453,6 +462,9 @@ func genC12Inert(r *rng, n int, w *bufio.Writer) {
 		// noise insertions
 		var noisy []string
 		for i, l := range lines {
+			if i == 0 && markFirst && r.chance(1, 2) {
+				noisy = append(noisy, eNoiseLine(r))
+			}
 			for r.chance(1, 3) {
 				noisy = append(noisy, eNoiseLine(r))
 			}
